@@ -79,13 +79,33 @@ def wfOffsetsProg (w : World) (P : Program) : Bool :=
       | some Q => fnext ≤ ih.fio && ih.vio == vnext && go (ih.fio + Q.flags.length) (vnext + Q.nvt) rest
   go 0 0 P.inherit
 
-def WF (w : World) : Bool := wfFind w && wfSlots w && w.progs.all (wfOffsetsProg w)
+/-- table entries and runtime slots point at each other: the slot `function_table[k].runtime_index` is defined here (or
+    is a prototype / undefined entry of this level) and its `def.f_index` is k again; conversely a slot defined here that
+    is not an alias points to an entry whose runtime_index is that slot.  (sort_function_table, which re-sorts the table
+    of a program loaded from a saved binary, must keep exactly this.) -/
+def wfBackrefsProg (P : Program) : Bool :=
+  P.ft.zipIdx.all (fun (e, k) =>
+    match P.flags[e.rindex]?, P.rt[e.rindex]? with
+    | some fl, some (.defn fi _) => hasBit fl nameInherited || fi == k
+    | some fl, some (.inh ..) => hasBit fl nameInherited
+    | _, _ => false) &&
+  (P.flags.zip P.rt).zipIdx.all (fun ((fl, e), i) =>
+    match e with
+    | .defn fi _ =>
+      hasBit fl nameInherited || hasBit fl nameAlias ||
+        (match P.ft[fi]? with
+         | some fe => fe.rindex == i
+         | none => false)
+    | .inh .. => true)
+
+def WF (w : World) : Bool := wfFind w && wfSlots w && w.progs.all (wfOffsetsProg w) && w.progs.all wfBackrefsProg
 
 /-- which clause fails where (for the judge) -/
 def wfReport (w : World) : List String :=
   w.progs.zipIdx.foldl (fun acc (P, p) =>
     acc ++ (if wfFindProg w p P then [] else [s!"prog={P.name} clause=find (sorted table / indices / prototype entries)"])
         ++ (if wfSlotsProg w p P then [] else [s!"prog={P.name} clause=slots"])
-        ++ (if wfOffsetsProg w P then [] else [s!"prog={P.name} clause=offsets"])) []
+        ++ (if wfOffsetsProg w P then [] else [s!"prog={P.name} clause=offsets"])
+        ++ (if wfBackrefsProg P then [] else [s!"prog={P.name} clause=backrefs (function_table <-> runtime slots)"])) []
 
 end NV.C07
